@@ -572,6 +572,19 @@ func (st *srvState) oracle(v *vio) {
 	if st.blockedRule != "" {
 		v.add("V-blocked", "%s", st.blockedRule)
 	}
+	st.s.Probes["handler-invocations"] += len(st.invs)
+	for _, r := range st.rx {
+		if r.valid {
+			st.s.Probes["datagrams-read-decodable"]++
+		} else {
+			st.s.Probes["datagrams-read-undecodable"]++
+		}
+	}
+	if st.readErrSeq != 0 {
+		st.s.Probe("serve-ended-by-read-error")
+	} else if len(st.closeSeqs) > 0 && st.closeSeqs[0] != st.closeInvSeq {
+		st.s.Probe("serve-ended-by-close-midstream")
+	}
 	// exactly-once dispatch: multiset of (peer, canonical bytes)
 	want := map[string]int{}
 	for _, r := range st.rx {
